@@ -73,6 +73,8 @@ def cases(tier, rng):
     for enc in ('utf8', 'utf-16', 'utf-32'):
         for comp in (None, 'gzip', 'zstd'):
             yield {'kind': 'jsonfile', 'enc': enc, 'compression': comp, 'items': ['a', 'é😀', ''], 'cuts': []}
+            # a reader told to skip records it cannot parse: a valid file still gives every record back
+            yield {'kind': 'jsonfile', 'enc': enc, 'compression': comp, 'items': ['a', 'é😀', '', 'line\ntwo', 'z'], 'cuts': [], 'ignore_error': True}
             yield {'kind': 'jsonfile', 'enc': enc, 'compression': comp, 'items': [], 'cuts': []}
     for enc in ENCS:
         alpha = LATIN if enc == 'latin-1' else ALPHA
@@ -121,7 +123,8 @@ def _jsonfile_real(case):
         elif case['compression'] == 'zstd':
             raw = zstandard.ZstdDecompressor().decompressobj().decompress(raw)
         back = []
-        rsjson.load_from_file(path, encoding=sp(case), compression=case['compression']).subscribe(
+        lkw = {'ignore_error': True} if case.get('ignore_error') else {}
+        rsjson.load_from_file(path, encoding=sp(case), compression=case['compression'], **lkw).subscribe(
             on_next=back.append, on_error=err.append)
     finally:
         os.unlink(path)
